@@ -108,7 +108,7 @@ Proof.
        pose proof (HOT t) as HOTt; pose proof (HHT t) as HHTt; pose proof (HOA t) as HOAt; pose proof (HHA t) as HHAt;
        pose proof (HOT u) as HOTu; pose proof (HHT u) as HHTu; pose proof (HOA u) as HOAu; pose proof (HHA u) as HHAu;
        pose proof (HST u) as HSTu; pose proof (HSA u) as HSAu; pose proof (HST t) as HSTt; pose proof (HSA t) as HSAt;
-       rewrite Hp in *; cbn in *;
+       clear HOT HHT HOA HHA HST HSA;
        destruct (Nat.eqb_spec u t) as [->|Hne]; cbn; intros;
        rewrite ?Hp in *; cbn in *;
        try match goal with H : In _ (rem _ _) |- _ => apply In_rem in H; destruct H end;
@@ -285,7 +285,9 @@ Proof.
             first [ discriminate | assumption | intros; lia | intros; discriminate
                   | intros; apply HFSt; reflexivity | intros; apply HMCt; reflexivity ]).
   (* S_trig, S_act, S_actclear *)
-  all: try solve [ try specialize (HMCt eq_refl);
+  all: try solve [ lazymatch goal with |- forall u, In _ _ -> _ => fail | _ => idtac end;
+          clear HLT HLA HWT HWA HOT HHT HOA HHA HST HSA HFT HFA HTM HL HFS HMC;
+          try specialize (HMCt eq_refl);
           destruct HTR as [HTR1 HTR2]; destruct HAC as [HAC1 HAC2]; destruct HACL as [HC1 [HC2 HC3]];
           repeat split; intros; try discriminate;
           repeat match goal with
@@ -642,6 +644,21 @@ Proof.
   - rewrite Hp in Hw. discriminate.
 Qed.
 
+(* the reset() half on its own, with what a loop exit of reset() is: the step of reset() that reads
+   triggered = true (and only that one) stamps rexit_stamp and goes on to deactivate *)
+Lemma no_lost_wakeup_reset a0 progs s t l :
+  R a0 progs s -> quiescentT s -> nth_error (thr s) t = Some l -> is_Wwoken (at_ l) = true ->
+  fslp l < rexit_stamp (gl s) -> rexit_stamp (gl s) < clear_stamp (gl s).
+Proof. intros HR HQ Hl Hw. apply (no_lost_wakeup_trigger _ _ _ _ _ HR HQ Hl Hw). Qed.
+Lemma reset_exit_step t c g l g' l' es :
+  at_ l = R_loop -> tstep t c g l = Some (g', l', es) ->
+  (triggered g = true -> at_ l' = R_store /\ rexit_stamp g' = now g) /\
+  (triggered g = false -> at_ l' = R_unl /\ rexit_stamp g' = rexit_stamp g).
+Proof.
+  intros Hp Hs. destruct l as [pr p s1 s2 s3 s4]. cbn in Hp. subst p.
+  unfold tstep in Hs. cbn [at_] in Hs. destruct (triggered g); inversion Hs; cbn; split; intros; try discriminate; auto.
+Qed.
+
 Lemma no_lost_wakeup_activate a0 progs s t l :
   R a0 progs s -> quiescentT s -> nth_error (thr s) t = Some l -> is_Vwoken (at_ l) = true ->
   0 < fslp l /\ (fslp l < act_stamp (gl s) -> act_stamp (gl s) < deact_stamp (gl s)).
@@ -763,4 +780,186 @@ Proof.
   exists false, cex_progs, cex_sched, 0.
   eexists. cbn zeta. split; [apply qcheck_quiescent; vm_compute; reflexivity|].
   split; [vm_compute; reflexivity|]. vm_compute. repeat split; auto; lia.
+Qed.
+
+(* ---------- bounded work (P2), for programs without reset() ----------
+   reset() contains a genuine spin: `while (!triggered) { unlock; trigger(); lock; }` repeats for as long as a
+   concurrent activate() sits between its `triggered = false` and its `activated = true` (trigger() returns false
+   there), so no measure decreases on every non-spurious step of a program that mixes reset() and activate().
+   For the other eight operations every step that is not a spurious wake-up decreases the measure below. *)
+Definition is_reset (o : op) : bool := match o with Reset => true | _ => false end.
+Definition in_reset (p : pc) : bool := match cur_op p with Some Reset => true | _ => false end.
+Definition no_reset_loc (l : loc) : bool := forallb (fun o => negb (is_reset o)) (prog l) && negb (in_reset (at_ l)).
+Definition no_reset_prog (p : list op) : bool := forallb (fun o => negb (is_reset o)) p.
+
+(* a thread at a woken pc that the last notify_all did not reach is still in the sleeper list *)
+Record Inv4 (g : glob) (ls : list loc) : Prop := {
+  N_now : ntfT g < now g /\ ntfA g < now g;
+  N_T : forall u, is_Wwoken (pcof ls u) = true -> ntfT g < slp (locof ls u) -> In u (slT g);
+  N_A : forall u, is_Vwoken (pcof ls u) = true -> ntfA g < slp (locof ls u) -> In u (slA g);
+  N_R : forall u, no_reset_loc (locof ls u) = true
+}.
+
+Lemma In_rem_intro t u l : In u l -> u <> t -> In u (rem t l).
+Proof. intros. apply In_rem. auto. Qed.
+
+Lemma Inv4_step a0 : forall g ls t c l g' l' es,
+  Inv a0 g ls -> Inv4 g ls -> nth_error ls t = Some l -> tstep t c g l = Some (g', l', es) -> Inv4 g' (upd ls t l').
+Proof.
+  intros g ls t c l g' l' es [_ [_ H3]] HI Hl Hs.
+  destruct l as [pr p s1 s2 s3 s4].
+  destruct HI as [HN HT HA HR].
+  pose proof (S_loc _ _ _ H3) as HL.
+  pose proof (pcof_at _ _ _ Hl) as Hp; cbn in Hp.
+  pose proof (locof_at _ _ _ Hl) as Hlo.
+  pose proof (HR t) as HRt. rewrite Hlo in HRt. unfold no_reset_loc in HRt. cbn [prog at_] in HRt.
+  step_cases Hs; gsimpl.
+  all: try match goal with o : op |- _ => destruct o; cbn [entry] in * end.
+  all: try (cbn in HRt; rewrite ?andb_false_r in HRt; discriminate).
+  all: constructor; gsimpl.
+  all: try lia.
+  (* N_T, N_A *)
+  all: try (intros u; rewrite (locof_upd _ _ _ _ _ Hl), (pcof_upd _ _ _ _ _ Hl);
+            pose proof (HT u) as HTu; pose proof (HA u) as HAu; pose proof (HL u) as HLu;
+            destruct (Nat.eqb_spec u t) as [->|Hne]; gsimpl; cbn;
+            first [ discriminate | intros; lia | intros; left; reflexivity
+                  | intros; right; auto | intros; apply In_rem_intro; auto | auto ]).
+  (* N_R *)
+  all: try (intros u; rewrite (locof_upd _ _ _ _ _ Hl); pose proof (HR u) as HRu;
+            destruct (Nat.eqb_spec u t) as [->|Hne]; [|exact HRu];
+            unfold no_reset_loc in *; cbn [prog at_] in *; cbn in HRt |- *;
+            rewrite ?andb_true_r in *; first [ exact HRt | reflexivity | (apply andb_true_iff in HRt; tauto) ]).
+Qed.
+
+Definition InvP (a0 : bool) (g : glob) (ls : list loc) : Prop := Inv a0 g ls /\ Inv4 g ls.
+Lemma InvP_step a0 : forall g ls t c l g' l' es,
+  InvP a0 g ls -> nth_error ls t = Some l -> tstep t c g l = Some (g', l', es) -> InvP a0 g' (upd ls t l').
+Proof.
+  intros g ls t c l g' l' es [H HP] Hl Hs. split; [eapply Inv_step; eauto|eapply Inv4_step; eauto].
+Qed.
+Lemma InvP_init a0 progs : forallb no_reset_prog progs = true -> InvP a0 (gl (init a0 progs)) (thr (init a0 progs)).
+Proof.
+  intros HNR. split; [apply Inv_init|].
+  assert (P : forall u, pcof (map (fun p => Loc p Idle 0 0 0 0) progs) u = Idle).
+  { intros u. unfold pcof. rewrite nth_error_map. destruct (nth_error progs u); reflexivity. }
+  unfold init; cbn [gl thr]. constructor; cbn; intros; rewrite ?P in *; cbn in *; try discriminate; try lia.
+  unfold locof. rewrite nth_error_map. destruct (nth_error progs u) as [p|] eqn:E; cbn; [|reflexivity].
+  unfold no_reset_loc. cbn. rewrite andb_true_r. rewrite forallb_forall in HNR.
+  apply (HNR p). eapply nth_error_In; eauto.
+Qed.
+
+(* weights: K = 4 * (number of threads) pays for the sleepers a notify_all turns from un-notified into notified *)
+Definition wpc (n : nat) (g : glob) (l : loc) : nat :=
+  let K := 4 * n in
+  match at_ l with
+  | Idle => 0
+  | A_load => K + 9 | A_lockT => K + 8 | A_clear => K + 7 | A_unlockT => K + 6 | A_lockA => K + 5
+  | A_set => K + 4 | A_notify => K + 3 | A_unlockA => 1
+  | T_load _ => K + 7 | T_lock _ => K + 6 | T_store _ => K + 5 | T_notify _ => K + 3 | T_unlock _ => 1
+  | I_load => 1 | IA_load => 1
+  | W_load _ => 10 | W_lock _ => 9 | W_test _ => 8 | W_pred _ => 6 | W_sleep _ => 5
+  | W_woken _ => if ntfT g <? slp l then 3 else 7
+  | W_final => 2 | W_unlock _ _ => 1
+  | V_lock _ => 9 | V_test _ => 8 | V_pred _ => 6 | V_sleep _ => 5
+  | V_woken _ => if ntfA g <? slp l then 3 else 7
+  | V_final => 2 | V_unlock _ _ => 1
+  | R_lock | R_load | R_loop | R_unl | R_relock | R_store | R_unlock => 0
+  end.
+Definition wloc (n : nat) (g : glob) (l : loc) : nat := (4 * n + 12) * length (prog l) + wpc n g l.
+Definition mu (s : sysT) : nat := list_sum (map (wloc (length (thr s)) (gl s)) (thr s)).
+Definition no_spurious (c : nat) : bool := negb (Nat.eqb c 1).
+
+(* a step of thread t that lowers t's own weight by more than r * (number of threads), while no other weight
+   grows by more than r, lowers the sum *)
+Lemma sum_raise_bound {A} (f f' : A -> nat) (l : list A) t x y r : nth_error l t = Some x ->
+  (forall z, f' z <= f z + r) ->
+  list_sum (map f' (upd l t y)) + f x + r <= list_sum (map f l) + f' y + r * length l.
+Proof.
+  intros Hn Hm. revert t Hn. induction l as [|h q IH]; destruct t; simpl; intros H; try discriminate;
+    rewrite Nat.mul_succ_r.
+  - inversion H; subst.
+    assert (list_sum (map f' q) <= list_sum (map f q) + r * length q) as Hq.
+    { clear -Hm. induction q as [|a q IH]; simpl; [lia|]. rewrite Nat.mul_succ_r. pose proof (Hm a). lia. }
+    lia.
+  - specialize (IH _ H). pose proof (Hm h). lia.
+Qed.
+Lemma sum_step_raise {A} (f f' : A -> nat) (l : list A) t x y r : nth_error l t = Some x ->
+  (forall z, f' z <= f z + r) -> f' y + r * length l < f x + r ->
+  list_sum (map f' (upd l t y)) < list_sum (map f l).
+Proof. intros Hn Hm Hd. pose proof (sum_raise_bound f f' l t x y r Hn Hm). lia. Qed.
+
+Lemma wloc_same n g g' z : ntfT g' = ntfT g -> ntfA g' = ntfA g -> wloc n g' z = wloc n g z.
+Proof. intros H1 H2. unfold wloc, wpc. rewrite H1, H2. reflexivity. Qed.
+Lemma wloc_raise n g g' z : wloc n g' z <= wloc n g z + 4.
+Proof.
+  unfold wloc, wpc. destruct (at_ z); try lia.
+  - destruct (ntfT g' <? slp z), (ntfT g <? slp z); lia.
+  - destruct (ntfA g' <? slp z), (ntfA g <? slp z); lia.
+Qed.
+
+Lemma mu_dec a0 s t c : InvP a0 (gl s) (thr s) -> no_spurious c = true -> enabledT s t c ->
+  mu (stepT s (t, c)) < mu s.
+Proof.
+  intros [HI H4] Hc [l [r [Hl Hs]]]. destruct r as [[g' l'] es].
+  unfold step, sys_step. rewrite Hl, Hs. cbn [fst]. unfold mu. cbn [gl thr]. rewrite upd_length.
+  set (n := length (thr s)).
+  assert (0 < n) as Hn by (unfold n; destruct (thr s); [destruct t; discriminate|cbn; lia]).
+  unfold no_spurious in Hc. apply negb_true_iff in Hc.
+  destruct H4 as [[HNT HNA] HT HA HR].
+  pose proof (HT t) as HTt. pose proof (HA t) as HAt. pose proof (HR t) as HRt.
+  rewrite (pcof_at _ _ _ Hl), (locof_at _ _ _ Hl) in HTt, HAt. rewrite (locof_at _ _ _ Hl) in HRt.
+  unfold no_reset_loc in HRt.
+  destruct l as [pr p s1 s2 s3 s4]. cbn [at_ prog slp] in *.
+  step_cases Hs.
+  all: try (cbn in HRt; rewrite ?andb_false_r in HRt; discriminate).
+  all: try solve [ apply (sum_step_raise (wloc n (gl s)) _ (thr s) t _ _ 4 Hl); [intros z; apply wloc_raise|];
+              unfold wloc, wpc; cbn [at_ prog length]; fold n;
+              try match goal with |- context [?a * length ?b] => generalize (a * length b); intros end; lia ].
+  all: apply (sum_step_dec (wloc n (gl s)) _ (thr s) t _ _ Hl).
+  all: try (intros z; rewrite wloc_same by reflexivity; lia).
+  all: unfold wloc, wpc; cbn [at_ prog length slp]; gsimpl.
+  all: try match goal with o : op |- _ => destruct o; cbn [entry] end.
+  all: rewrite ?Nat.mul_succ_r.
+  all: try match goal with |- context [?a * length ?b] => generalize (a * length b); intros end.
+  all: try lia.
+  all: repeat match goal with |- context [?a <? ?b] => destruct (Nat.ltb_spec a b) end; try lia.
+  all: exfalso; first [ pose proof (HTt eq_refl ltac:(assumption)) as Hin | pose proof (HAt eq_refl ltac:(assumption)) as Hin ];
+       apply mem_In in Hin; rewrite Hin, Hc in *; cbn in *; destruct tm; cbn in *; congruence.
+Qed.
+
+Definition RP (a0 : bool) (progs : list (list op)) (s : sysT) : Prop :=
+  forallb no_reset_prog progs = true /\ R a0 progs s.
+
+Lemma RP_inv a0 progs s : RP a0 progs s -> InvP a0 (gl s) (thr s).
+Proof. intros [HN HR]. eapply reachable_inv; [apply InvP_step|apply InvP_init; exact HN|exact HR]. Qed.
+
+(* without reset(): every schedule without spurious wake-ups (time-outs allowed) makes at most mu(s) moves *)
+Lemma bounded_work a0 progs s sc : RP a0 progs s ->
+  sched_ok no_spurious sc -> moves glob loc tstep s sc <= mu s.
+Proof.
+  intros HR Hok. eapply (moves_le_mu glob loc tstep mu (InvP a0) (InvP_step a0) no_spurious); eauto.
+  - intros s0 t c. apply mu_dec.
+  - apply (RP_inv _ _ _ HR).
+Qed.
+
+(* the spin of reset(): from this reachable state thread 0 (inside reset) makes four steps - trigger() reads
+   activated = false, lock, load triggered = false, unlock - and is back where it was: same pcs, same flags,
+   same mutexes; only the ghost clock has advanced.  Thread 1 (activate, between its clear and its set) is
+   enabled all the time, so this is a busy wait, not a deadlock. *)
+Definition spin_progs : list (list op) := [[Reset]; [Reset; Activate]].
+Definition spin_sched : list (nat * nat) := repeat (0, 0) 5 ++ repeat (1, 0) 19.
+Definition spin_state : sysT := runT (init true spin_progs) spin_sched.
+Definition same_visible (s s' : sysT) : Prop :=
+  map at_ (thr s) = map at_ (thr s') /\ map prog (thr s) = map prog (thr s') /\
+  activated (gl s) = activated (gl s') /\ triggered (gl s) = triggered (gl s') /\
+  mT (gl s) = mT (gl s') /\ mA (gl s) = mA (gl s') /\ slT (gl s) = slT (gl s') /\ slA (gl s) = slA (gl s').
+Lemma reset_spins :
+  same_visible spin_state (runT spin_state (repeat (0, 0) 4)) /\
+  moves glob loc tstep spin_state (repeat (0, 0) 4) = 4 /\
+  pcof (thr spin_state) 0 = T_load InReset /\ pcof (thr spin_state) 1 = A_lockA /\
+  enabledT spin_state 1 0.
+Proof.
+  split; [vm_compute; repeat split; reflexivity|]. split; [vm_compute; reflexivity|].
+  split; [vm_compute; reflexivity|]. split; [vm_compute; reflexivity|].
+  eexists; eexists. split; vm_compute; reflexivity.
 Qed.
